@@ -47,7 +47,7 @@ SHRINK_LISTS = ("ops",)
 
 
 def budget(tier):
-    return 2000 if tier == "quick" else 100_000
+    return 6000 if tier == "quick" else 100_000
 
 
 def wall(tier):
@@ -60,6 +60,8 @@ BOUNDARY = [
     "{n};0;0;0;-5;neg type\n", "{n};254;0;0;1000000000000;huge type\n", "{n};0;1;0;-1;neg value type\n",
     "{n};0;1;0;99999;v\n", "{n};255;3;0;22;999999999999999999999\n", "{n};255;3;0;22;0\n",
     "{n};255;0;0;-7;\n", "{n};255;0;0;17;ζ\n", "{n};0;1;0;47;a;b;c\n", "{n};0;1;0;2;\n",
+    "255;255;3;0;3;\n", "255;255;3;0;3;\n", "254;255;0;0;17;2.2\n", "253;255;0;0;17;2.2\n", "255;255;0;0;17;2.2\n",
+    "0;255;0;0;18;2.2.0\n",
 ]
 
 
